@@ -265,6 +265,23 @@ func outage(d *fw.Driver, res *fw.Result, seed int64, fails int, mapped bool) er
 	} else if lo.err == nil {
 		res.Add(fw.Finding{Kind: "monitor", Signature: sig + " window call", Detail: "an untagged call issued while the server was unreachable returned a result", Case: c})
 	}
+	// a retry-tagged call without a context parameter issued during the outage: it rides the outage out
+	type addOut struct {
+		v   int
+		err error
+		pan interface{}
+	}
+	addCh := make(chan addOut, 1)
+	go func() {
+		var o addOut
+		defer func() {
+			if p := recover(); p != nil {
+				o.pan = p
+			}
+			addCh <- o
+		}()
+		o.v, o.err = cl.AddRetry(20, 22)
+	}()
 	// let `fails` redials be refused, then heal the network
 	for w := 0; w < 4000 && len(e.PX.AcceptTimes())-acc0 < fails; w++ {
 		time.Sleep(time.Millisecond)
@@ -291,6 +308,17 @@ func outage(d *fw.Driver, res *fw.Result, seed int64, fails int, mapped bool) er
 	case ro.err != nil || ro.val != tRetry:
 		res.Add(fw.Finding{Kind: "monitor", Signature: sig + " retry result", Detail: fmt.Sprintf("the retry-tagged call returned (%d, %v) instead of its genuine result %d", ro.val, ro.err, tRetry), Case: c})
 	}
+	select {
+	case o := <-addCh:
+		switch {
+		case o.pan != nil:
+			res.Add(fw.Finding{Kind: "monitor", Signature: sig + " retry call panics", Detail: fmt.Sprintf("a retry-tagged call without a context parameter issued during the outage panicked in the caller: %v", o.pan), Case: c})
+		case o.err != nil || o.v != 42:
+			res.Add(fw.Finding{Kind: "monitor", Signature: sig + " retry call (no context) result", Detail: fmt.Sprintf("a retry-tagged call without a context parameter issued during the outage returned (%d, %v) instead of its genuine result", o.v, o.err), Case: c})
+		}
+	case <-time.After(5 * time.Second):
+		res.Add(fw.Finding{Kind: "monitor", Signature: sig + " retry call (no context) hangs", Detail: "a retry-tagged call without a context parameter issued during the outage did not return within 5s of the heal", Case: c})
+	}
 	e.H.C.Release(tPlain)
 	scen.WithTimeout(3*time.Second, closer)
 	time.Sleep(2 * time.Millisecond)
@@ -298,8 +326,14 @@ func outage(d *fw.Driver, res *fw.Result, seed int64, fails int, mapped bool) er
 	// the retry loop of the tagged call: attempts and outcomes, against the model
 	retries, recvErr := 0, 0
 	var rid interface{}
+	blockIDs := map[string]bool{} // ids of calls to SH.Block (the tagged call under observation is one of them)
 	for _, ev := range evs {
-		if ev.Site == "call.retry" {
+		if ev.Site == "call.enq" && ev.KV["method"] == "SH.Block" {
+			blockIDs[fw.JSON(ev.KV["id"])] = true
+		}
+	}
+	for _, ev := range evs {
+		if ev.Site == "call.retry" && blockIDs[fw.JSON(ev.KV["id"])] {
 			retries++
 			rid = ev.KV["id"]
 		}
